@@ -259,7 +259,7 @@ def main():
     names = sys.argv[3:] or L.REACTIONS
     rng = random.Random(seed + 100003)
     failures = []
-    total = {"decay_lookups": 0, "chain_ratios": 0, "numeric": 0, "structural": 0}
+    total = {"decay_lookups": 0, "chain_ratios": 0, "numeric": 0, "structural": 0, "cases_with_warnings": 0, "formulate_ok": 0, "error_steps": 0, "notfound_steps": 0}
     ncases = 0
     kinds = {"formulate_ok": 0, "formulate_raises": 0, "steps": 0, "error_steps": 0, "notfound_steps": 0}
     samples = []
